@@ -3,6 +3,8 @@ package registry
 import (
 	"context"
 	"fmt"
+	"slices"
+	"strings"
 	"sync"
 	"time"
 
@@ -360,6 +362,25 @@ func (r *UnifiedMemoryModelRegistry) GetEndpointsForModel(ctx context.Context, m
 	endpoints, err := r.MemoryModelRegistry.GetEndpointsForModel(ctx, modelName)
 	if err == nil && len(endpoints) > 0 {
 		return endpoints, nil
+	}
+
+	// The body inspector lower-cases the model name it extracts, so a name that endpoints list
+	// with capitals never hits the exact index above. Every endpoint listing that spelling
+	// serves it: collect them all (the catalogue lookup below knows only one entry per name).
+	var folded []string
+	r.modelToEndpoints.Range(func(name string, endpointSet *xsync.Map[string, struct{}]) bool {
+		if name != modelName && strings.EqualFold(name, modelName) {
+			endpointSet.Range(func(endpoint string, _ struct{}) bool {
+				if !slices.Contains(folded, endpoint) {
+					folded = append(folded, endpoint)
+				}
+				return true
+			})
+		}
+		return true
+	})
+	if len(folded) > 0 {
+		return folded, nil
 	}
 
 	// Try unified model lookup
